@@ -141,7 +141,24 @@ def _pairs(cfg):
         "subst": (lambda: SubstitutionMapper(make_subst_func(SUBST)),
                   lambda: counting(CachedSubstitutionMapper)(make_subst_func(SUBST)), NOARGS),
         "walk": (lambda: _Visited(), lambda: counting(_CachedVisited)(), NOARGS),
+        # the common-subexpression caching mix-in on mappers that are *not* CachedMappers:
+        # the counterpart computes every wrapper anew; the mix-in computes the child of
+        # each distinct (wrapper, arguments) once per instance
+        "mixin-evaluate": (lambda: _NoCSECacheEvaluator(env),
+                           lambda: counting(EvaluationMapper)(env), NOARGS),
+        "mixin-depend": (lambda: _NoCSECacheDependencies(**flags),
+                         lambda: counting(DependencyMapper)(**flags), NOARGS),
     }
+
+
+class _NoCSECacheEvaluator(EvaluationMapper):
+    def map_common_subexpression(self, expr, *args, **kwargs):
+        return self.map_common_subexpression_uncached(expr, *args, **kwargs)
+
+
+class _NoCSECacheDependencies(DependencyMapper):
+    def map_common_subexpression(self, expr, *args, **kwargs):
+        return self.map_common_subexpression_uncached(expr, *args, **kwargs)
 
 # }}}
 
@@ -303,7 +320,7 @@ def check_history(spec):
                          f"after call {step} on {e!r}: cached walk saw {len(set(cached.seen))} "
                          f"distinct nodes, uncached walks {len(walk_seen_total)}")
             continue
-        if which == "evaluate":
+        if which in ("evaluate", "mixin-evaluate"):
             same = values_agree(got[1], want[1])
             if same and type(got[1]) is not type(want[1]) and not callable(got[1]) \
                     and not isinstance(got[1], (bool, int, float)) :
@@ -316,7 +333,8 @@ def check_history(spec):
                      f"call {step} (history {spec['calls'][:step + 1]}) on {e!r} with "
                      f"{args!r}: memoizing mapper returned {got[1]!r}, a fresh "
                      f"non-memoizing mapper {want[1]!r}")
-        elif which != "evaluate" and _norm(got[1], True) != _norm(want[1], True):
+        elif which not in ("evaluate", "mixin-evaluate") \
+                and _norm(got[1], True) != _norm(want[1], True):
             res.fail(f"{which}:result-shared-across-constant-types{sfx}",
                      f"call {step} on {e!r} with {args!r}: memoizing mapper returned "
                      f"{got[1]!r}, fresh {want[1]!r} (differ in a constant's type)")
@@ -325,7 +343,8 @@ def check_history(spec):
         if inst is None:
             continue
         res.compared()
-        worst = [(k, v) for k, v in inst._calls.items() if v > 1]
+        worst = [(k, v) for k, v in inst._calls.items() if v > 1 and (
+            not which.startswith("mixin-") or k[0] == "map_common_subexpression_uncached")]
         if worst:
             k, v = sorted(worst)[0]
             res.fail(f"{which}:handler-ran-more-than-once:{k[0]}",
@@ -563,6 +582,19 @@ def _retype(draw, spec):
 
 @st.composite
 def pool_for(draw, which):
+    mixin = which.startswith("mixin-")
+    which = which.replace("mixin-", "")
+    if mixin:
+        pool = draw(pool_for(which))
+        # wrappers that recur: within one expression, across calls, nested
+        bases = [q for q in pool if isinstance(q, list)] or [["Var", "x"]]
+        for _ in range(draw(st.integers(1, 3))):
+            b = draw(st.sampled_from(bases))
+            w = ["CommonSubexpression", b, draw(st.sampled_from((None, "u"))), "pymbolic_eval"]
+            pool.append(draw(st.sampled_from((
+                ["Sum", [w, w]], ["Product", [w, ["Sum", [w, ["Const", "int", 1]]]]], w,
+                ["CommonSubexpression", ["Sum", [w, w]], None, "pymbolic_eval"]))))
+        return pool
     if which == "evaluate":
         frag = S.EVALUABLE.but(poison=False, float_consts=(0.5, 2.0, 4.0, 1.0, -1.5))
         gen = lambda: draw(S.expr(draw(st.sampled_from(("INT", "NUM", "BOOL"))),  # noqa: E731
@@ -618,12 +650,13 @@ def pool_for(draw, which):
 @st.composite
 def history_case(draw):
     which = draw(st.sampled_from(("rename", "rename", "leafcount", "collect", "evaluate",
-                                  "depend", "subst", "walk")))
+                                  "depend", "subst", "walk", "mixin-evaluate",
+                                  "mixin-depend")))
     pool = draw(pool_for(which))
     calls = [[draw(st.integers(0, 7)), draw(st.integers(0, 15))]
              for _ in range(draw(st.integers(3, 20)))]
     cse_flags = [i for i, fl in enumerate(FLAGS) if fl.get("include_cses")]
-    flags = draw(st.sampled_from(cse_flags)) if which == "depend" and draw(
+    flags = draw(st.sampled_from(cse_flags)) if which.endswith("depend") and draw(
         st.booleans()) else draw(st.integers(0, 26))
     return {"pair": which, "cfg": {"flags": flags,
                                    "env": draw(st.integers(0, 1))},
